@@ -70,3 +70,36 @@ void harness_decompress(void)
 	free(free_ptr); free(msg);
 	WITNESS_END();
 }
+
+/* the deflate driver: output into a caller-supplied buffer of 2 * length bytes, removal of the 4-byte sync-flush tail.
+ * zlib contract stub: deflate consumes <= avail_in and produces <= avail_out bytes (deflate writes what fits and
+ * keeps the rest pending: zlib.h "deflate"), any return code. */
+static int deflate_calls, deflate_ends, deflate_resets;
+int deflate(z_streamp strm, int flush)
+{
+	(void)flush;
+	deflate_calls++;
+	unsigned in = nd_uint(), out = nd_uint();
+	__CPROVER_assume(in <= strm->avail_in && out <= strm->avail_out);
+	for (unsigned i = 0; i < 8; i++) if (i < out) strm->next_out[i] = nd_u8();
+	strm->next_in += in; strm->avail_in -= in; strm->next_out += out; strm->avail_out -= out;
+	return (int)nd_range(-5, 1);
+}
+int deflateEnd(z_streamp strm) { (void)strm; deflate_ends++; return 0; }
+int deflateReset(z_streamp strm) { (void)strm; deflate_resets++; return 0; }
+void harness_compress(void)
+{
+	static z_stream defl; static z_stream *dp = &defl;
+	WS.extension_compression.compression_level = 2;
+	WS.extension_compression.strm_comp = &dp;
+	WS.extension_compression.server_no_context_takeover = nd_bool();
+	size_t len = nd_size(); __CPROVER_assume(len <= 4);
+	uint8_t *src = malloc(len ? len : 1), *dest = malloc(len * 2 ? len * 2 : 1);    /* the caller's contract: dest holds 2 * length bytes */
+	__CPROVER_assume(src != 0 && dest != 0);
+	int n = websocket_compress(&WS, dest, src, len);
+	/* memory safety: CBMC's bounds checks on dest (exact-size heap object). The result is a length inside dest, or a failure */
+	CHECK(n == -1 || (n >= 0 && (size_t)n + 4 <= 2 * len), "C19.compressed_length_lies_inside_the_output_buffer_or_failure_is_reported");
+	if (n >= 0) REACH("compressed"); else REACH("failed");
+	free(src); free(dest);
+	WITNESS_END();
+}
